@@ -195,8 +195,10 @@ fn c09_o2_two_requests() {
 }
 
 //@ ob: C09.O2c
-//@ tier: thorough
-//@ cap: 2400
+//@ tier: quick
+//@ cap: 800
+//@ rss: 9.0
+//@ time: 252
 //@ standins: tracing
 //@ desc: three outstanding requests (the middle one symbolic): same claims as C09.O2 for the middle request
 //@ bounds: 3 outstanding requests; unwind 8
